@@ -323,6 +323,10 @@ func (s *Seq) probeAbsentLidTag(lid int, tag string) {
 
 // lightReadsOf is the cheap read check after every write.
 func (s *Seq) lightReadsOf(ctx string, lids []int) {
+	s.softOracle("", func() { s.lightReadsOf0(ctx, lids) })
+}
+
+func (s *Seq) lightReadsOf0(ctx string, lids []int) {
 	tag := s.readTag()
 	s.probeCount(tag, ctx)
 	for _, l := range lids {
@@ -619,7 +623,9 @@ func (s *Seq) probeAssignIndex(path, ctx, tagOv string) {
 	s.stat("assignindex-checked")
 }
 
-func (s *Seq) probeControl(ctx string) {
+func (s *Seq) probeControl(ctx string) { s.softOracle("", func() { s.probeControl0(ctx) }) }
+
+func (s *Seq) probeControl0(ctx string) {
 	if !s.quiescent {
 		return
 	}
@@ -705,6 +711,10 @@ func sortedInts(m map[int]string) []int {
 
 // runPlan executes the probes; tagOv overrides the oracle tag (reopen, ...).
 func (s *Seq) runPlan(plan []Probe, tagOv, ctx string) {
+	s.softOracle("", func() { s.runPlan0(plan, tagOv, ctx) })
+}
+
+func (s *Seq) runPlan0(plan []Probe, tagOv, ctx string) {
 	rt := tagOv
 	if rt == "" {
 		rt = s.readTag()
